@@ -121,6 +121,13 @@ func buildValue(cs *c06Case) (util.Message, error) {
 		return lib.BuildPacket(cs.Recipe)
 	case "misc":
 		return miscValue(cs.Recipe), nil
+	case "sloppy":
+		v, err := lib.BuildPacket(cs.Recipe)
+		if err != nil {
+			return nil, err
+		}
+		sloppify(v, cs.Recipe.U("_sloppy"))
+		return v, nil
 	case "ctor":
 		if mk := ctorByName(cs.Recipe.Text("ctor")); mk != nil {
 			return mk(), nil
@@ -646,4 +653,39 @@ func c06Extra(a *fw.Agg) map[string]any {
 	sort.Strings(covered)
 	sort.Strings(uncovered)
 	return map[string]any{"encodable_types_in_source": len(found), "encodable_types_covered": len(covered), "encodable_types_not_covered": uncovered}
+}
+
+// sloppify leaves the derived fields of a hand-built packet value the way a hurried caller would: header lengths
+// and counts at their zero or constructor values, option bytes of any length. Such values are encodable (C13
+// quantifies over all encodable values); only repeatability is judged on them, never layout.
+func sloppify(v util.Message, how uint64) {
+	switch x := v.(type) {
+	case *protocol.Ethernet:
+		sloppify(x.Data, how)
+	case *protocol.IPv4:
+		x.IHL = []uint8{0, 5, 5, 6}[how%4]
+		n := []int{0, 1, 3, 4, 7, 8, 11}[how/4%7]
+		x.Options = *util.NewBuffer(bytes.Repeat([]byte{0x44}, n))
+		sloppify(x.Data, how/28)
+	case *protocol.IPv6:
+		if x.HbhHeader != nil {
+			sloppify(x.HbhHeader, how)
+		}
+		if x.RoutingHeader != nil {
+			sloppify(x.RoutingHeader, how)
+		}
+		sloppify(x.Data, how/28)
+	case *protocol.HopByHopHeader:
+		x.HEL = uint8(how % 2)
+	case *protocol.RoutingHeader:
+		x.HEL = uint8(how % 3)
+	case *protocol.IGMPv3Query:
+		if how%2 == 0 {
+			x.NumberOfSources = uint16(how / 2 % 3)
+		}
+	case *protocol.IGMPv3GroupRecord:
+		x.AuxDataLen = uint8(how % 3)
+	case *protocol.TCP:
+		x.HdrLen = uint8(how % 16)
+	}
 }
